@@ -53,6 +53,11 @@ const R_ALL: &[(&str, Fm)] = &[
     ("foo$domain=example.com", Fm::Std),
     ("*$domain=example.com|tracker.co.uk", Fm::Std),
     ("bar$domain=~example.com", Fm::Std),
+    // pattern-less rules: one bucket per listed domain (a shared Arc), next to a rule that the
+    // bucket owns alone
+    ("*$script,domain=a.com|b.com", Fm::Std),
+    ("*$image,domain=a.com", Fm::Std),
+    ("*$font,domain=b.com", Fm::Std),
     ("/foo$xmlhttprequest,domain=example.com|~sub.example.com", Fm::Std),
     ("foo$third-party", Fm::Std),
     ("bar$~third-party,script", Fm::Std),
@@ -141,7 +146,7 @@ const OTHER_RULES: [&str; 8] = [
 // container serialized in hash order would have >= 24 possible orders.
 // ------------------------------------------------------------------------------------------------
 
-const WIDE: [&[&str]; 13] = [
+const WIDE: [&[&str]; 15] = [
     // 4 fusable rules in one token bucket of `filters`
     &["wide/aa", "wide/bb", "wide/cc", "wide/dd"],
     // one bucket, two fusion groups (the optimizer groups them in a hash map)
@@ -173,6 +178,8 @@ const WIDE: [&[&str]; 13] = [
     // 4 rules under one host key
     &["h1.com##.a", "h1.com##.b", "h1.com##.c", "h1.com##.d"],
     // 4 domain hashes per option list
+    &["*$script,domain=s1.com|s2.com", "*$image,domain=s1.com", "*$stylesheet,domain=s1.com|s2.com|s3.com", "*$font,domain=s1.com"],
+    &["*$xhr,domain=s1.com|s2.com", "*$media,domain=s2.com", "*$other,domain=s2.com|s3.com", "*$ping,domain=s2.com"],
     &["wide$domain=d1.com|d2.com|d3.com|d4.com", "wide$domain=~d1.com|~d2.com|~d3.com|~d4.com", "wide$domain=d4.com|d3.com|d2.com|d1.com|~x.d1.com", "*$domain=d1.com|d2.com|d3.com|d4.com"],
     // 4 generichide exceptions
     &["@@||g1.com^$generichide", "@@||g2.com^$generichide", "@@||g3.com^$generichide", "@@||g4.com^$generichide"],
